@@ -77,7 +77,7 @@ def main():
             pid = ch["property_id"]
             if props and pid not in props:
                 continue
-            rc, out = sh(f"./check {pid} --tier quick --repo {wt}", cwd=VERIF, timeout=600)
+            rc, out = sh(f"VERIF_EVIDENCE_DIR=/tmp/ev/evidence VERIF_REPLAY_DIR=/tmp/ev/replay ./check {pid} --tier quick --repo {wt}", cwd=VERIF, timeout=600)
             fails = [l.strip() for l in out.splitlines() if l.strip().startswith("FAIL")]
             det[pid] = {"rc": rc, "fails": fails[:6], "err": [l for l in out.splitlines() if "ANALYSIS-ERROR" in l][:2]}
         res["checks"] = {k: v for k, v in det.items() if v["rc"] != 0}
